@@ -243,7 +243,7 @@ Definition dec1 (n : nat) (md : message) (o : oneof) (raw : rawmap) : res rawmap
                   let vmap := flat_map (fun cf => match raw_get (jn cf) raw with
                                                   | Some v => [(jn cf, v)] | None => [] end) (m_fields cmd) in
                   let raw' := fold_left (fun r cf => raw_del (jn cf) r) (m_fields cmd) raw in
-                  gj_un E sc n (f_kind f) (JObj vmap) >>= (fun ov =>
+                  gj_un E sc n (f_kind f) (JObj (raw_sort vmap)) >>= (fun ov =>
                   let variant := match ov with Some v => v | None => FM [] end in
                   match gj_fval E sc (f_kind f) variant with
                   | ROk vj => ROk (raw_set (jn f) vj raw')
@@ -638,7 +638,10 @@ Proof.
         subst g. rewrite Hgn, (BytesFacts.sorted_mget cmd cm name x Hcs Hin) in Egx. discriminate Egx. }
       rewrite (raw_get_notin _ _ Hno). constructor. }
   pose proof (by_fields_perm cmd cm Hcjn (proj1 (andb_prop _ _ Hcok)) Hcs (BytesFacts.wt_fields_declared sc cmd cm Hcwf)) as HP.
-  rewrite Hk. rewrite (flat_gj_un E EL sc ctn cmd cm Hcts Hcwk Hcfm Hcown Hcok Hcs Hcwf n _ _ HF2 HP). cbn [rbind].
+  (* json.Marshal(variantMap) writes the keys in byte order: the same entries, permuted *)
+  destruct (ClashFacts.Forall2_perm_r (fv_ent E sc cmd) _ _ (Permutation_sym (ClashFacts.raw_sort_perm _)) _ HF2) as [fvs' [HPf HF3]].
+  rewrite Hk. rewrite (flat_gj_un E EL sc ctn cmd cm Hcts Hcwk Hcfm Hcown Hcok Hcs Hcwf n _ _ HF3
+                         (Permutation_trans (Permutation_sym HPf) HP)). cbn [rbind].
   rewrite <- Hk, Hgj.
   rewrite fold_raw_del_map.
   assert (Hdel : del_all (map jn (m_fields cmd)) (P ++ (d, dv) :: ckv ++ Q) = P ++ [(d, dv)] ++ Q).
@@ -926,7 +929,7 @@ Proof.
     rewrite Hfl in Hc. destruct (member_facts o f Hmem) as [Hin [_ [_ [Hself _]]]].
     destruct (es_entry (f_name f) (FM cm) f Hinm Hself) as [j [Hinj Hj]].
     rewrite Hk, pj_fval_FM, Hcts, Hcwk, Hcfm in Hj. apply rbind_ok in Hj. destruct Hj as [ces [Hces Hj]]. inversion Hj; subst j.
-    destruct (nonflat_gj_un E EL sc ctn cmd cm Hcts Hcwk Hcfm Hcown Hcok Hcwf n ces Hc Hces) as [r Hr].
+    destruct (nonflat_gj_un E EL sc ctn cmd cm Hcts Hcwk Hcfm Hcown Hcok Hcs Hcwf n ces Hc Hces) as [r Hr].
     exists (JObj ces), r. split; [|rewrite Hk; exact Hr].
     apply raw_get_nodup_in; [exact (del_all_nodup D es es_keys_nodup)|].
     unfold F, del_all. apply filter_In. split; [exact Hinj|]. cbn [fst]. apply Bool.negb_true_iff.
@@ -1093,20 +1096,17 @@ Definition variant_types_plain (sc : schema) (md : message) (m : mval) : bool :=
      | None => true
      end) (m_oneofs md).
 
-(* values of a member without codec that break the round trip although no defect class of CodecCases.local_defects fires:
-   flattened — an empty `optional bytes` (omitempty drops it), a bool-keyed map (json.Marshal fails, the error is swallowed
-   and the variant is dropped); non-flattened — a NaN / Infinity inside a repeated or map float field (protojson writes a
-   string, json.Unmarshal rejects it), a multi-word field whose lowerCamel key folds onto another field of the struct *)
-Definition flat_gap (cmd : message) (cm : mval) : bool :=
-  existsb (fun e => match find_field (m_fields cmd) (fst e) with
-                    | Some f => empty_bytes (snd e) || match f_card f with MapOf KBool => true | _ => false end
-                    | None => false
-                    end) cm.
+(* a value of a NON-flattened member without codec the proof does not follow: a multi-word field whose lowerCamel key
+   (protojson) folds onto another field of the Go struct, which json.Unmarshal then fills with a value of the wrong field.
+   (The gaps this condition used to list are defect classes now, confirmed on the emitted code: flattened — an empty
+   `optional bytes` (D4ReflectedEmptyOptBytes), a bool-keyed map (D4FlatVariantBoolMap); non-flattened — NaN / Infinity
+   inside a repeated or map float field (D4OneofVariantReflect), a bool-keyed map (D4OneofVariantBoolMap), a folding onto a
+   field that does not read the value (D4OneofVariantFoldClash).  When the other field does read it the round trip holds
+   — OneofExamples.oneof_no_gap_remainder — but encoding/json assigns that field twice, which the proof leaves out.) *)
 Definition nonflat_gap (cmd : message) (cm : mval) : bool :=
   existsb (fun e => match find_field (m_fields cmd) (fst e) with
-                    | Some f => if multiword (fst e)
-                                then match field_by_fold cmd (json_name (fst e)) with Some _ => true | None => false end
-                                else nonfinite_in (f_kind f) (snd e)
+                    | Some f => multiword (fst e) &&
+                                match field_by_fold cmd (json_name (fst e)) with Some _ => true | None => false end
                     | None => false
                     end) cm.
 Definition variant_no_gap (sc : schema) (md : message) (m : mval) : bool :=
@@ -1115,7 +1115,7 @@ Definition variant_no_gap (sc : schema) (md : message) (m : mval) : bool :=
      | Some f => match f_kind f, mget m (f_name f) with
                  | KMessage ctn, Some (FM cm) =>
                      match find_message (all_messages sc) ctn with
-                     | Some cmd => negb (if o_flatten o then flat_gap cmd cm else nonflat_gap cmd cm)
+                     | Some cmd => o_flatten o || negb (nonflat_gap cmd cm)
                      | None => true
                      end
                  | _, _ => true
@@ -1166,55 +1166,85 @@ Proof. intros H1 H2. simpl. rewrite H1, H2. reflexivity. Qed.
 
 Lemma gj_defects_none tn md m : lookup_message sc tn = Some md -> owner_of sc md = OwnNone ->
   gj_defects sc (KMessage tn) (FM m) =
-  (if existsb (fun e => match find_field (m_fields md) (fst e) with
-                        | Some f => negb (is_msg_kind (f_kind f)) && nonfinite_in (f_kind f) (snd e)
-                        | None => false end) m then [D4UnwrapSiblingNonFinite] else []) ++
+  ((if existsb (fun e => match find_field (m_fields md) (fst e) with
+                         | Some f => negb (is_msg_kind (f_kind f)) && nonfinite_in (f_kind f) (snd e)
+                         | None => false end) m then [D4UnwrapSiblingNonFinite] else []) ++
+   (if existsb (fun e => match find_field (m_fields md) (fst e), snd e with
+                         | Some f, FS (VBytes []) => match f_card f with Optional => true | _ => false end
+                         | _, _ => false end) m then [D4ReflectedEmptyOptBytes] else [])) ++
   (if existsb (fun e => match find_field (m_fields md) (fst e) with
                         | Some f => true && enum_codec_unknown sc (f_kind f) (snd e)
                         | None => false end) m then [D4EnumCodecUnknown] else []) ++
   kids_defects md (fun _ => true) m.
 Proof. intros H1 H2. simpl. rewrite H1, H2. reflexivity. Qed.
 
-(* flattened member without codec: classifier + no gap = the condition of the reflection lemmas *)
+(* flattened member without codec: the classifier's conditions are those of the reflection lemmas *)
 Lemma flat_child_ok_of cmd cm :
+  msg_ok cmd = true -> sorted_Z (map (fun e => num_of cmd (fst e)) cm) = true ->
   wt_fields sc cmd cm = true -> reflect_child_breaks sc cmd cm = false ->
   existsb (fun e => match find_field (m_fields cmd) (fst e) with
                     | Some f => negb (is_msg_kind (f_kind f)) && nonfinite_in (f_kind f) (snd e)
                     | None => false end) cm = false ->
-  flat_gap cmd cm = false -> flat_child_ok sc cmd cm = true.
+  existsb (fun e => match find_field (m_fields cmd) (fst e), snd e with
+                    | Some f, FS (VBytes []) => match f_card f with Optional => true | _ => false end
+                    | _, _ => false end) cm = false ->
+  existsb (fun g => match f_card g, mget cm (f_name g) with
+                    | MapOf KBool, Some (FMap (_ :: _)) => true
+                    | _, _ => false end) (m_fields cmd) = false ->
+  flat_child_ok sc cmd cm = true.
 Proof.
-  intros Hwf Hr Hn Hg. unfold flat_child_ok. apply forallb_forall. intros [name x] Hin. cbn [fst snd].
-  destruct (BytesFacts.wt_fields_in sc cmd cm name x Hwf Hin) as [f [Hf _]]. rewrite Hf.
+  intros Hok Hsorted Hwf Hr Hn Hob Hbmap. unfold flat_child_ok. apply forallb_forall. intros [name x] Hin. cbn [fst snd].
+  destruct (BytesFacts.wt_fields_in sc cmd cm name x Hwf Hin) as [f [Hf Hwe]]. rewrite Hf.
+  destruct (find_field_spec _ _ _ Hf) as [Hinf Hname].
   pose proof (TimestampFacts.existsb_false_in _ _ _ Hr Hin) as H1. pose proof (TimestampFacts.existsb_false_in _ _ _ Hn Hin) as H2.
-  pose proof (TimestampFacts.existsb_false_in _ _ _ Hg Hin) as H3. cbn [fst snd] in H1, H2, H3. rewrite Hf in H1, H2, H3.
+  pose proof (TimestampFacts.existsb_false_in _ _ _ Hob Hin) as H3. cbn [fst snd] in H1, H2, H3. rewrite Hf in H1, H2, H3.
+  pose proof (TimestampFacts.existsb_false_in _ _ _ Hbmap Hinf) as H4. cbv beta in H4.
+  rewrite Hname, (EmptyFacts.mget_nodup cm name x (TimestampFacts.sorted_names_nodup cmd cm Hsorted) Hin) in H4.
   apply Bool.orb_false_iff in H1. destruct H1 as [H1 Hone].
   apply Bool.orb_false_iff in H1. destruct H1 as [H1 Hmsgts].
   apply Bool.orb_false_iff in H1. destruct H1 as [H1 Hfsp].
   apply Bool.orb_false_iff in H1. destruct H1 as [H1 Henc].
   apply Bool.orb_false_iff in H1. destruct H1 as [Hmw Htsk].
-  apply Bool.orb_false_iff in H3. destruct H3 as [Heb Hbm].
   assert (Hmk : is_msg_kind (f_kind f) = false).
   { destruct (is_msg_kind (f_kind f)); [|reflexivity]. rewrite Htsk in Hmsgts. discriminate Hmsgts. }
   rewrite Hmk in H2. cbn [negb andb] in H2.
+  (* a present-but-empty byte string can only sit in an `optional` field, and that is the class D4ReflectedEmptyOptBytes *)
+  assert (Heb : empty_bytes x = false).
+  { destruct x as [[z|b|y|[|c y]|b|z]|cm0|l|kv]; try reflexivity. exfalso.
+    unfold wt_entry in Hwe. pose proof (msg_ok_no_oneof cmd f Hok Hinf) as Hoo.
+    destruct (f_card f) eqn:Hc; try discriminate Hwe; [|discriminate H3].
+    apply andb_prop in Hwe. destruct Hwe as [Hwt Hpop]. unfold populated, implicit_scalar in Hpop. rewrite Hc, Hoo in Hpop.
+    destruct (f_kind f); try discriminate Hwt; discriminate Hpop. }
+  (* a populated map is non-empty, so a bool-keyed one is the class D4FlatVariantBoolMap *)
+  assert (Hbm : match f_card f with MapOf KBool => true | _ => false end = false).
+  { destruct (f_card f) as [| | |kk] eqn:Hc; try reflexivity. destruct kk; try reflexivity. exfalso.
+    unfold wt_entry in Hwe. rewrite Hc in Hwe. destruct x as [v|cm0|l|[|e0 kv]]; try discriminate Hwe. discriminate H4. }
   rewrite Hmw, Heb. cbn [negb andb]. rewrite Bool.andb_true_r.
   unfold gj_entry_ok, gj_kind_ok. rewrite <- is_msg_kind_msgk, Hmk, H2, Hbm, Henc. reflexivity.
 Qed.
 
 Lemma nonflat_child_ok_of cmd cm :
-  wt_fields sc cmd cm = true -> pj_form_breaks_reflect cmd cm = false -> nonflat_gap cmd cm = false ->
+  wt_fields sc cmd cm = true -> pj_form_breaks_reflect cmd cm = false -> pj_form_bool_map cmd cm = false ->
+  nonflat_gap cmd cm = false ->
   nonflat_child_ok cmd cm = true.
 Proof.
-  intros Hwf Hr Hg. unfold nonflat_child_ok. apply forallb_forall. intros [name x] Hin. cbn [fst snd].
-  destruct (BytesFacts.wt_fields_in sc cmd cm name x Hwf Hin) as [f [Hf _]]. rewrite Hf.
+  intros Hwf Hr Hb Hg. unfold nonflat_child_ok. apply forallb_forall. intros [name x] Hin. cbn [fst snd].
+  destruct (BytesFacts.wt_fields_in sc cmd cm name x Hwf Hin) as [f [Hf Hwe]]. rewrite Hf.
   pose proof (TimestampFacts.existsb_false_in _ _ _ Hr Hin) as H1. pose proof (TimestampFacts.existsb_false_in _ _ _ Hg Hin) as H3.
-  cbn [fst snd] in H1, H3. rewrite Hf in H1, H3.
+  pose proof (TimestampFacts.existsb_false_in _ _ _ Hb Hin) as H2.
+  cbn [fst snd] in H1, H2, H3. rewrite Hf in H1, H2, H3.
   destruct (multiword name).
-  - destruct (field_by_fold cmd (json_name name)); [discriminate H3|reflexivity].
-  - cbn [negb andb] in H1. rewrite H3. cbn [negb]. rewrite Bool.andb_true_r.
+  - cbn [andb] in H3. destruct (field_by_fold cmd (json_name name)); [discriminate H3|reflexivity].
+  - cbn [negb andb] in H1, H2.
     apply Bool.orb_false_iff in H1. destruct H1 as [H1 Hmsgts].
     apply Bool.orb_false_iff in H1. destruct H1 as [H1 Henum].
-    apply Bool.orb_false_iff in H1. destruct H1 as [H1 Hfsp].
+    apply Bool.orb_false_iff in H1. destruct H1 as [H1 Hnf].
     apply Bool.orb_false_iff in H1. destruct H1 as [Hi64 Htsk].
+    rewrite Hnf. cbn [negb]. rewrite Bool.andb_true_r.
+    assert (Hbm : match f_card f with MapOf KBool => true | _ => false end = false).
+    { destruct (f_card f) as [| | |kk] eqn:Hc; try reflexivity. destruct kk; try reflexivity. exfalso.
+      unfold wt_entry in Hwe. rewrite Hc in Hwe. destruct x as [v|cm0|l|[|e0 kv]]; try discriminate Hwe. discriminate H2. }
+    rewrite Hbm. cbn [negb]. rewrite Bool.andb_true_r.
     destruct (f_kind f); try reflexivity; try discriminate Hi64; try discriminate Henum.
     rewrite Htsk in Hmsgts. discriminate Hmsgts.
 Qed.
@@ -1241,7 +1271,8 @@ Proof.
   rewrite (gj_defects_own sc tn md FtOneof m Hlk Hown) in Hdef.
   apply app_eq_nil in Hdef. destruct Hdef as [Hloc Hdef]. apply app_eq_nil in Hdef. destruct Hdef as [_ Hkids].
   unfold local_defects in Hloc. rewrite Hown in Hloc.
-  apply app_eq_nil in Hloc. destruct Hloc as [Hloc _].
+  apply app_eq_nil in Hloc. destruct Hloc as [Hloc Hloc3]. apply app_eq_nil in Hloc3. destruct Hloc3 as [_ Hloc3].
+  apply app_eq_nil in Hloc3. destruct Hloc3 as [_ Hlbm].
   intros o Ho f Hcfg Hmem Hmsg.
   pose proof (flat_map_nil _ _ Hloc o Ho) as Hlo. cbv beta in Hlo. rewrite Hcfg, Hmem in Hlo.
   unfold variant_types_plain in Htp. rewrite forallb_forall in Htp. specialize (Htp o Ho). rewrite Hcfg, Hmem in Htp. cbn [negb orb] in Htp.
@@ -1269,15 +1300,26 @@ Proof.
   destruct (o_flatten o) eqn:Hfl.
   - (* flattened *)
     destruct (reflect_child_breaks sc cmd cm) eqn:Hrb; [discriminate Hlo|].
-    apply Bool.negb_true_iff in Hng.
     assert (Hneeds : needs_gj sc FtOneof md f = true).
     { cbn [needs_gj]. rewrite Hk, Hoo. cbn [is_msg_kind andb]. apply existsb_exists. exists o. split; [exact Ho|].
       rewrite Hcfg, Hfl, Honn, str_eqb_refl. reflexivity. }
     pose proof (kids_defects_nil sc md _ m Hkids (f_name f) (FM cm) f Hinm Hgf Hneeds) as Hcd.
     rewrite Hk, (gj_defects_none sc ctn cmd cm Hclk Hcown) in Hcd. apply app_eq_nil in Hcd. destruct Hcd as [Hcd _].
+    apply app_eq_nil in Hcd. destruct Hcd as [Hcd Hcob].
     destruct (existsb _ cm) eqn:Hnf in Hcd; [discriminate Hcd|].
-    exact (flat_child_ok_of sc cmd cm Hcwf Hrb Hnf Hng).
-  - destruct (pj_form_breaks_reflect cmd cm) eqn:Hrb; [discriminate Hlo|].
-    apply Bool.negb_true_iff in Hng. exact (nonflat_child_ok_of sc cmd cm Hcwf Hrb Hng).
+    destruct (existsb _ cm) eqn:Hob in Hcob; [discriminate Hcob|].
+    (* the class D4FlatVariantBoolMap does not fire for this oneof *)
+    assert (Hbmap : existsb (fun g => match f_card g, mget cm (f_name g) with
+                                      | MapOf KBool, Some (FMap (_ :: _)) => true
+                                      | _, _ => false end) (m_fields cmd) = false).
+    { destruct (existsb _ (m_oneofs md)) eqn:Hexo in Hlbm; [discriminate Hlbm|].
+      pose proof (TimestampFacts.existsb_false_in _ _ _ Hexo Ho) as Hb. cbv beta in Hb.
+      unfold find_oneof_member in Hb. rewrite Hcfg, Hfl, Hmem, Hg in Hb. cbn [andb] in Hb. rewrite Hk in Hb.
+      cbn [msg_name] in Hb. rewrite Hclk in Hb. exact Hb. }
+    exact (flat_child_ok_of sc cmd cm Hcok Hcs Hcwf Hrb Hnf Hob Hbmap).
+  - apply app_eq_nil in Hlo. destruct Hlo as [Hlo1 Hlo2]. apply app_eq_nil in Hlo2. destruct Hlo2 as [Hlo2 _].
+    destruct (pj_form_breaks_reflect cmd cm) eqn:Hrb; [discriminate Hlo1|].
+    destruct (pj_form_bool_map cmd cm) eqn:Hpb; [discriminate Hlo2|].
+    cbn [orb] in Hng. apply Bool.negb_true_iff in Hng. exact (nonflat_child_ok_of sc cmd cm Hcwf Hrb Hpb Hng).
 Qed.
 Close Scope Z_scope.
